@@ -38,6 +38,14 @@ Proof.
     destruct (Nat.eqb j j0) eqn:E.
     + apply Nat.eqb_eq in E. subst j. tauto.
     + apply Nat.eqb_neq in E. rewrite M. split; [discriminate|congruence].
+  - (* EAcqM at IPolSR, others *) simpl. intros t' Hn j. unfold upd.
+    destruct (Nat.eqb j (jf (recs s r))) eqn:E; [|tauto]. apply Nat.eqb_eq in E. subst j.
+    match goal with Hq : mown s _ = None |- _ => rewrite Hq end. split; intros Hc; inversion Hc. congruence.
+  - (* EAcqM at IPolSR, main *) intros hM L M. rewrite Heql in L. cbn [lk kind] in L. destruct L as (-> & L2 & L3).
+    exists (Some (jf (recs s r))). simpl. rewrite L2 in *. cbn [lk kind is_relcbs].
+    split; [tauto|]. intros j. unfold upd. destruct (Nat.eqb j (jf (recs s r))) eqn:E.
+    + apply Nat.eqb_eq in E. subst j. tauto.
+    + apply Nat.eqb_neq in E. rewrite M. split; [discriminate|congruence].
   - (* ERelM others *) simpl. intros t' Hn j. unfold upd. destruct (Nat.eqb j j0) eqn:E; [|tauto].
     apply Nat.eqb_eq in E. subst j. rewrite Heqo. split; intros Hc; inversion Hc. congruence.
   - (* ERelM main *) intros hM L M. rewrite Heql in L. cbn [lk kind] in L. destruct L as (-> & L2 & L3).
